@@ -42,6 +42,23 @@ theorem C01_text_any_tree_any_order (m : Metric) (t : DTree) (d : List Str) (h :
   obtain ⟨hw, ho⟩ := t.eval_spec m
   exact m.result_congr hw (wf_batch m d) (ho.trans (batch_perm m h))
 
+/-- … and the *whole* table (before any `[:k]`) of any merge tree over any assignment of the rows is the table of
+one batch: no entry is dropped and no count is lost at `add` / `merge` time, however many distinct n-grams the
+accumulated states hold (there is no bound such as `10 * k` on the stored candidates; `Witness/C01Text.lean`
+shows a bounded state is not batching-invariant). -/
+theorem C01_text_full_table_any_tree (m : Metric) (t : DTree) (d : List Str) (h : t.rows.Perm d) :
+    (t.eval m).result strLe = (m.batch d).result strLe := by
+  obtain ⟨hw, ho⟩ := t.eval_spec m
+  exact FreqState.result_congr strLe_keyOrder hw (wf_batch m d) (ho.trans (batch_perm m h))
+
+/-- the stored counts themselves: after any tree the counter holds, for every key, exactly the count of one batch
+over all rows (SC07c: the count of a "late bloomer" gathered while it was rare is still there) -/
+theorem C01_text_counts_any_tree (m : Metric) (t : DTree) (d : List Str) (h : t.rows.Perm d) (g : Str) :
+    get (t.eval m).counter g = get (m.batch d).counter g ∧ (t.eval m).count = (m.batch d).count := by
+  obtain ⟨_, ho⟩ := t.eval_spec m
+  have := ho.trans (batch_perm m h)
+  exact ⟨this.2.2 g, this.1⟩
+
 /-- One accumulator, any batching. -/
 theorem C01_text_batching (m : Metric) (batches : List (List Str)) :
     m.result (m.mergeable.feed batches) = m.result (m.batch batches.flatten) :=
